@@ -621,4 +621,226 @@ Proof.
   destruct Hin as [Ha Hb]. simpl. destruct (get_ok m a b Hlen Hsz Ha Hb) as [v Hv]. rewrite Hv. simpl. eauto.
 Qed.
 
+(* ---- min / max ------------------------------------------------------------------------------------- *)
+(* the fold step shared by dm_min and dm_max, for an arbitrary comparison *)
+Definition pick {K : Type} (lt : L -> L -> bool) (acc : option (K * L)) (e : K * L) : option (K * L) :=
+  match acc with
+  | None => Some e
+  | Some (_, av) => if lt (snd e) av then Some e else acc
+  end.
+
+Lemma dm_min_pick : forall (m : dmat), dm_min O m = fold_left (pick (lltb O)) (dm_indexed m) None.
+Proof. reflexivity. Qed.
+Lemma dm_max_pick : forall (m : dmat),
+  dm_max O m = fold_left (pick (fun x y => lltb O y x)) (dm_indexed m) None.
+Proof. reflexivity. Qed.
+
+Section Pick.
+Context {K : Type}.
+Variable lt : L -> L -> bool.
+Hypothesis lt_irrefl : forall x, lt x x = false.
+Hypothesis lt_trans : forall x y z, lt x y = true -> lt y z = true -> lt x z = true.
+
+(* partial-order version (covers f64 with NaN): the winner is a cell that no cell is strictly below *)
+Lemma pick_minimal : forall (l : list (K * L)),
+  match fold_left (pick lt) l None with
+  | None => l = []
+  | Some e => exists k, nth_error l k = Some e /\ forall x, In x l -> lt (snd x) (snd e) = false
+  end.
+Proof.
+  induction l as [|x l IH] using rev_ind; [reflexivity|].
+  rewrite fold_left_app. simpl.
+  destruct (fold_left (pick lt) l None) as [[ek ev]|]; simpl.
+  - destruct IH as (k & Hk & Hmin). destruct (lt (snd x) ev) eqn:Hx.
+    + exists (length l). split.
+      * rewrite nth_error_app2 by lia. rewrite Nat.sub_diag. reflexivity.
+      * intros y Hy. apply in_app_or in Hy. destruct Hy as [Hy|[<-|[]]]; [|apply lt_irrefl].
+        destruct (lt (snd y) (snd x)) eqn:Hyx; [|reflexivity].
+        rewrite <- (Hmin y Hy). simpl. symmetry. eapply lt_trans; eassumption.
+    + exists k. split.
+      * rewrite nth_error_app1; [assumption|]. apply nth_error_Some. congruence.
+      * intros y Hy. apply in_app_or in Hy. destruct Hy as [Hy|[<-|[]]]; [apply Hmin; assumption|assumption].
+  - subst l. exists 0. split; [reflexivity|]. intros y [<-|[]]. apply lt_irrefl.
+Qed.
+
+(* strict weak order: additionally the winner is strictly below every earlier cell, i.e. it is the FIRST
+   minimal cell in storage order *)
+Hypothesis lt_cotrans : forall x y z, lt x y = true -> lt x z = true \/ lt z y = true.
+
+Lemma pick_first_minimal : forall (l : list (K * L)),
+  match fold_left (pick lt) l None with
+  | None => l = []
+  | Some e => exists k, nth_error l k = Some e /\
+                (forall x, In x l -> lt (snd x) (snd e) = false) /\
+                (forall k' x, k' < k -> nth_error l k' = Some x -> lt (snd e) (snd x) = true)
+  end.
+Proof.
+  induction l as [|x l IH] using rev_ind; [reflexivity|].
+  pose proof (pick_minimal (l ++ [x])) as Hm.
+  rewrite fold_left_app in *. simpl in *.
+  destruct (fold_left (pick lt) l None) as [[ek ev]|]; simpl in *.
+  - destruct IH as (k & Hk & Hmin & Hfirst).
+    assert (Hkl : k < length l) by (apply nth_error_Some; congruence).
+    destruct (lt (snd x) ev) eqn:Hx.
+    + destruct Hm as (k0 & _ & Hm). exists (length l). split; [|split].
+      * rewrite nth_error_app2 by lia. rewrite Nat.sub_diag. reflexivity.
+      * assumption.
+      * intros k' y Hk' Hy. rewrite nth_error_app1 in Hy by assumption.
+        destruct (Nat.lt_trichotomy k' k) as [Hlt|[->|Hgt]].
+        -- eapply lt_trans; [eassumption|]. apply (Hfirst k' y Hlt Hy).
+        -- rewrite Hk in Hy. inversion Hy; subst. assumption.
+        -- destruct (lt_cotrans _ _ (snd y) Hx) as [H|H]; [assumption|].
+           apply nth_error_In in Hy. rewrite (Hmin y Hy) in H. discriminate.
+    + destruct Hm as (k0 & _ & Hm). exists k. split; [|split].
+      * rewrite nth_error_app1 by assumption. assumption.
+      * assumption.
+      * intros k' y Hk' Hy. rewrite nth_error_app1 in Hy by lia. apply (Hfirst k' y Hk' Hy).
+  - subst l. exists 0. split; [reflexivity|]. split.
+    + intros y [<-|[]]. apply lt_irrefl.
+    + intros k' y Hk'. lia.
+Qed.
+
+End Pick.
+
+Lemma indexed_nth_some : forall (m : dmat) k i j v, nth_error (dm_indexed m) k = Some (i, j, v) ->
+  nth_error (mcells m) k = Some v /\ tril_inv k = (i, j) /\ j < i /\ tril_idx i j = k.
+Proof.
+  intros m k i j v H. rewrite indexed_nth in H.
+  destruct (nth_error (mcells m) k) as [w|]; simpl in H; [|discriminate].
+  assert (Hij : tril_inv k = (i, j)) by congruence. assert (w = v) by congruence. subst w.
+  pose proof (tril_inv_r k) as Hr. rewrite Hij in Hr. tauto.
+Qed.
+
+Lemma indexed_in_cell : forall (m : dmat) k w, nth_error (mcells m) k = Some w ->
+  In (tril_inv k, w) (dm_indexed m).
+Proof.
+  intros m k w H. apply nth_error_In with k. rewrite indexed_nth, H. reflexivity.
+Qed.
+
+Theorem min_none : forall (m : dmat), dm_min O m = None <-> mcells m = [].
+Proof.
+  intros m. rewrite dm_min_pick. split; intros H.
+  - assert (E : dm_indexed m = []).
+    { generalize (dm_indexed m) H. intros [|x l]; [reflexivity|]. simpl.
+      assert (forall l (e : nat * nat * L), fold_left (pick (lltb O)) l (Some e) <> None) as F.
+      { induction l0 as [|y l0 IH]; intros e; simpl; [discriminate|].
+        destruct e as [ek ev]. destruct (lltb O (snd y) ev); apply IH. }
+      intros G. exfalso. exact (F _ _ G). }
+    apply length_zero_iff_nil. rewrite <- indexed_length, E. reflexivity.
+  - unfold dm_indexed. rewrite H. reflexivity.
+Qed.
+
+Theorem max_none : forall (m : dmat), dm_max O m = None <-> mcells m = [].
+Proof.
+  intros m. rewrite dm_max_pick. split; intros H.
+  - assert (E : dm_indexed m = []).
+    { generalize (dm_indexed m) H. intros [|x l]; [reflexivity|]. simpl.
+      assert (forall l (e : nat * nat * L),
+                fold_left (pick (fun x y => lltb O y x)) l (Some e) <> None) as F.
+      { induction l0 as [|y l0 IH]; intros e; simpl; [discriminate|].
+        destruct e as [ek ev]. destruct (lltb O ev (snd y)); apply IH. }
+      intros G. exfalso. exact (F _ _ G). }
+    apply length_zero_iff_nil. rewrite <- indexed_length, E. reflexivity.
+  - unfold dm_indexed. rewrite H. reflexivity.
+Qed.
+
+Section Order.
+Hypothesis lt_irrefl : forall x, lltb O x x = false.
+Hypothesis lt_trans : forall x y z, lltb O x y = true -> lltb O y z = true -> lltb O x z = true.
+
+(* partial order (e.g. f64 with NaN): the reported cell is a real cell (i, j) <-> k and nothing is below it *)
+Theorem min_is_minimal : forall (m : dmat) i j v, dm_min O m = Some (i, j, v) ->
+  exists k, nth_error (mcells m) k = Some v /\ tril_inv k = (i, j) /\ j < i /\ tril_idx i j = k /\
+            forall k' w, nth_error (mcells m) k' = Some w -> lltb O w v = false.
+Proof.
+  intros m i j v H. rewrite dm_min_pick in H.
+  pose proof (pick_minimal (K := nat * nat) (lltb O) lt_irrefl lt_trans (dm_indexed m)) as P.
+  rewrite H in P. destruct P as (k & Hk & Hmin).
+  apply indexed_nth_some in Hk. destruct Hk as (Hc & Hinv & Hji & Hidx).
+  exists k. repeat split; try assumption.
+  intros k' w Hw. apply (Hmin _ (indexed_in_cell m k' w Hw)).
+Qed.
+
+Theorem max_is_maximal : forall (m : dmat) i j v, dm_max O m = Some (i, j, v) ->
+  exists k, nth_error (mcells m) k = Some v /\ tril_inv k = (i, j) /\ j < i /\ tril_idx i j = k /\
+            forall k' w, nth_error (mcells m) k' = Some w -> lltb O v w = false.
+Proof.
+  intros m i j v H. rewrite dm_max_pick in H.
+  pose proof (pick_minimal (K := nat * nat) (fun x y => lltb O y x) lt_irrefl
+                (fun x y z H1 H2 => lt_trans z y x H2 H1) (dm_indexed m)) as P.
+  rewrite H in P. destruct P as (k & Hk & Hmin).
+  apply indexed_nth_some in Hk. destruct Hk as (Hc & Hinv & Hji & Hidx).
+  exists k. repeat split; try assumption.
+  intros k' w Hw. apply (Hmin _ (indexed_in_cell m k' w Hw)).
+Qed.
+
+(* strict weak order: it is moreover the FIRST such cell in storage order *)
+Hypothesis lt_cotrans : forall x y z, lltb O x y = true -> lltb O x z = true \/ lltb O z y = true.
+
+Theorem min_is_min : forall (m : dmat) i j v, dm_min O m = Some (i, j, v) ->
+  exists k, nth_error (mcells m) k = Some v /\ tril_inv k = (i, j) /\ j < i /\ tril_idx i j = k /\
+            (forall k' w, nth_error (mcells m) k' = Some w -> lltb O w v = false) /\
+            (forall k' w, k' < k -> nth_error (mcells m) k' = Some w -> lltb O v w = true).
+Proof.
+  intros m i j v H. rewrite dm_min_pick in H.
+  pose proof (pick_first_minimal (K := nat * nat) (lltb O) lt_irrefl lt_trans lt_cotrans (dm_indexed m)) as P.
+  rewrite H in P. destruct P as (k & Hk & Hmin & Hfirst).
+  apply indexed_nth_some in Hk. destruct Hk as (Hc & Hinv & Hji & Hidx).
+  exists k. repeat split; try assumption.
+  - intros k' w Hw. apply (Hmin _ (indexed_in_cell m k' w Hw)).
+  - intros k' w Hk' Hw. apply (Hfirst k' (tril_inv k', w) Hk'). rewrite indexed_nth, Hw. reflexivity.
+Qed.
+
+Theorem max_is_max : forall (m : dmat) i j v, dm_max O m = Some (i, j, v) ->
+  exists k, nth_error (mcells m) k = Some v /\ tril_inv k = (i, j) /\ j < i /\ tril_idx i j = k /\
+            (forall k' w, nth_error (mcells m) k' = Some w -> lltb O v w = false) /\
+            (forall k' w, k' < k -> nth_error (mcells m) k' = Some w -> lltb O w v = true).
+Proof.
+  intros m i j v H. rewrite dm_max_pick in H.
+  pose proof (pick_first_minimal (K := nat * nat) (fun x y => lltb O y x) lt_irrefl
+                (fun x y z H1 H2 => lt_trans z y x H2 H1)
+                (fun x y z H1 => match lt_cotrans y x z H1 with or_introl A => or_intror A | or_intror B => or_introl B end)
+                (dm_indexed m)) as P.
+  rewrite H in P. destruct P as (k & Hk & Hmin & Hfirst).
+  apply indexed_nth_some in Hk. destruct Hk as (Hc & Hinv & Hji & Hidx).
+  exists k. repeat split; try assumption.
+  - intros k' w Hw. apply (Hmin _ (indexed_in_cell m k' w Hw)).
+  - intros k' w Hk' Hw. apply (Hfirst k' (tril_inv k', w) Hk'). rewrite indexed_nth, Hw. reflexivity.
+Qed.
+
+End Order.
+
 End MatrixLaws.
+
+(* ---- audit ------------------------------------------------------------------------------------------ *)
+Print Assumptions tril_sym.
+Print Assumptions tril_lt.
+Print Assumptions tril_inj.
+Print Assumptions tril_inv_l.
+Print Assumptions tril_inv_r.
+Print Assumptions tril_surj.
+Print Assumptions str_eqb_eq.
+Print Assumptions find_str_nodup.
+Print Assumptions get_diag.
+Print Assumptions get_sym.
+Print Assumptions get_spec.
+Print Assumptions get_set_same.
+Print Assumptions get_set_other.
+Print Assumptions set_frame.
+Print Assumptions set_ok.
+Print Assumptions get_ok.
+Print Assumptions set_no_panic.
+Print Assumptions get_no_panic.
+Print Assumptions indexed_nth.
+Print Assumptions indexed_agrees.
+Print Assumptions indexed_in_range.
+Print Assumptions indexed_order.
+Print Assumptions indexed_complete.
+Print Assumptions to_map_agrees.
+Print Assumptions to_map_ok.
+Print Assumptions min_none.
+Print Assumptions max_none.
+Print Assumptions min_is_minimal.
+Print Assumptions max_is_maximal.
+Print Assumptions min_is_min.
+Print Assumptions max_is_max.
